@@ -29,6 +29,11 @@ Verdict(e) ==
   LET f == e.family IN
   IF ~(AllWellFormed(e.src) /\ AllWellFormed(e.dst_pre))
   THEN {"trace.bad_setup"}
+  ELSE IF e.vars_only /\ e.exc # ""
+  THEN \* a REFUSED copy_vars: C11 says nothing about it; C17 does (a call that
+       \* raises leaves the manager intact): no variable may have been declared
+       (IF e.must_accept THEN {f \o ".rejected"} ELSE {})
+       \cup (IF e.dst_post.order = e.dst_pre.order THEN {} ELSE {"exc.copy_vars_partial"})
   ELSE IF ~AllWellFormed(e.dst_post) THEN {f \o ".receiver_canonical"}
   ELSE
   LET S == WithD(e.src)
